@@ -57,7 +57,16 @@ def replay(chk, cases, label):
         if r["outcome"] != "ok":
             chk.violation("affects run failed (%s): %s" % (r["outcome"], (r.get("error") or "")[:200]), detail)
             continue
-        got = sorted((f, d["range"]["start"]["line"], d["data"]["affected_block_file_path"], d["data"]["affected_block_name"])
+        def ref_of(d):
+            # which reference the violation is about: from the diagnostic's data, else from its message
+            data = d.get("data") or {}
+            if "affected_block_file_path" in data and "affected_block_name" in data:
+                return data["affected_block_file_path"], data["affected_block_name"]
+            for (_, _, tf, tn) in want:
+                if "%s:%s" % (tf, tn) in d.get("message", ""):
+                    return tf, tn
+            return "?", "?"
+        got = sorted((f, d["range"]["start"]["line"]) + ref_of(d)
                      for f, ds in (r["report"] or {}).items() for d in ds if d["code"] == "affects")
         if got != want:
             chk.violation("affects violations %s, expected one per unsatisfied reference of a modified block: %s" % (got, want), detail)
